@@ -775,11 +775,11 @@ func (g *Gen) scriptElement() string {
 		g.feature(ScopeScriptTypeJS)
 		typ := g.pick("application/javascript", "text/ecmascript", "application/x-javascript", "MODULE", " module ", "text/javascript1.5", "application/ecmascript")
 		return "<script type=\"" + typ + "\">" + g.JS(1+g.R.Intn(3)) + end
-	case k == 15 && g.R.Intn(2) == 0 && !g.avoid(ScopeDupType):
+	case k == 15 && !g.avoid(ScopeDupType):
 		// an HTML tokenizer drops an attribute that duplicates an earlier one
 		g.feature(ScopeDupType)
-		if g.R.Intn(2) == 0 {
-			return "<script type=\"" + g.pick("text/javascript", "module", "") + "\" type=\"" + g.pick("text/plain", "application/ld+json", "text/template") + "\">" + g.JS(1+g.R.Intn(2)) + end
+		if g.R.Intn(3) != 0 {
+			return "<script type=\"" + g.pick("text/javascript", "module", "") + "\" type=\"" + g.pick("text/plain", "text/plain", "application/ld+json", "text/template") + "\">" + g.JS(1+g.R.Intn(3)) + end
 		}
 		return "<script type=\"text/plain\" type=\"" + g.pick("text/javascript", "module") + "\"><b>" + g.hole(CText, "html.script.datablock") + "</b>" + end
 	default:
